@@ -22,6 +22,12 @@ def builds_needed(tier):
     return ["rel"]
 
 
+# Own corpus re-run on other builds of the crate (mc/core.py: extra builds). Every observation is compared with the same model.
+def extra_builds(tier):
+    return [("relchk", None), ("avx2", None)]
+
+
+
 def bounds(tier):
     return {"oneshot_shapes": list(SHAPES), "incremental_aad_bytes": 67 if tier == "thorough" else 33,
             "incremental_data_bytes": 260 if tier == "thorough" else 130, "fork_tree_depth": 6 if tier == "thorough" else 5}
@@ -158,7 +164,7 @@ def _nt(ops, meta):
     return False
 
 
-def shards(tier):
+def _own_shards(tier):
     sh = [("shard_oneshot", (r, kl)) for r in (20, 8, 12) for kl in (32, 16)]
     for r in (8, 12, 20):
         for d in ("E", "D"):
@@ -216,3 +222,15 @@ def shard_fork(arg, tier):
     _mk(ck)
     explorer.explore(AeadSystem(rounds, kl, tier, "fork"), ck, "tree", 6 if tier == "thorough" else 5)
     return ck.stats
+
+
+def shards(tier):
+    from props import c05
+    # the AEAD tag is a Poly1305 tag under a one-time key the caller cannot choose: the rare accumulator states of the MAC
+    # (limb carries, the 2^130 wrap, the final conditional subtraction) are therefore driven on the MAC directly, as a component
+    return _own_shards(tier) + [("shard_poly_component", ("shard_limbs", i)) for i in range(c05.NLIMB)] + [("shard_poly_component", ("shard_crafted", None))]
+
+
+def shard_poly_component(arg, tier):
+    from mc import multi
+    return multi.run_component("c05", arg[0], arg[1], tier, PROPERTY_ID)
